@@ -836,9 +836,15 @@ class Composite(LexicalParent[Node], HasCreator, Node, ABC):
         # `connect` puts the newest connection first, so go through the stored lists
         # backwards: every input then finds its connections in the order they were saved
         for (inp_node, inp), (out_node, out) in reversed(connections):
-            input_panel_getter(nodes[inp_node])[inp].connect(
-                output_panel_getter(nodes[out_node])[out]
-            )
+            inp_channel = input_panel_getter(nodes[inp_node])[inp]
+            out_channel = output_panel_getter(nodes[out_node])[out]
+            # Re-create the connection as it was stored. It was accepted when it was
+            # made; whether today's hints would accept it again (strictness may have
+            # been switched, hints re-assigned since) is not a question for a restore
+            # -- asking it through `connect` would make a legal graph impossible to load
+            if out_channel not in inp_channel.connections:
+                inp_channel.connections.insert(0, out_channel)
+                out_channel.connections.insert(0, inp_channel)
 
     @staticmethod
     def _get_data_outputs(node: Node):
